@@ -1650,17 +1650,27 @@ package desync
 //@   oncall put: requires $authOK && $arg0 == pbase(r.URL.Path)
 //@   ensures !$authOK ==> $status == 401
 
+//@ ghost var $gerr error
 //@ func (h HTTPIndexHandler) head
 //@   prop C14 C15
 //@   safety none
 //@   ghost@after:GetIndexReader $last = $r1
 //@   ensures $last == nil ==> $status == 200
-//@   ensures $last != nil ==> $status == 404
+//# F33 (this clause used to read "any error ==> 404": taken from the code, not from the property, it had encoded the
+//# defect): 404 is the answer to a missing index only - an os not-exist error of a local index store, NoSuchObject of a
+//# remote one; any other failure of the index store is a 500 and never looks like "missing" or success
+//@   ensures $last != nil && (notExist($last) || is($last, NoSuchObject)) ==> $status == 404
+//@   ensures @C14 $last != nil && !(notExist($last) || is($last, NoSuchObject)) ==> $status == 500
 
 //@ func (h HTTPIndexHandler) get
 //@   prop C15 C14
 //@   safety none
 //@   oncall IndexStore.GetIndex: requires $arg0 == indexName
+//# F33: a missing index is answered 404, a failing index store 400 (never 404, never 200)
+//@   ghost@entry $gerr = nil
+//@   ghost@after:GetIndex $gerr = $r1
+//@   ensures @C14 $gerr != nil && (notExist($gerr) || is($gerr, NoSuchObject)) ==> $status == 404
+//@   ensures @C14 $gerr != nil && !(notExist($gerr) || is($gerr, NoSuchObject)) ==> $status == 400
 
 //@ func (h HTTPIndexHandler) put
 //@   prop C15 C04 C19
